@@ -516,14 +516,15 @@ def bounded_hex_aperture(which):
         check('out-argument-accumulates', bool(np.allclose(acc, base + o1, atol=1e-9)))
 
 
-@harness('C18', 'bounded/keystone-aperture', kind='bounded', variants=['tiling', 'tiling-any-segment-count', 'tiling-explicit-rotation', 'opd'],
+@harness('C18', 'bounded/keystone-aperture', kind='bounded', variants=['tiling', 'tiling-any-segment-count', 'tiling-explicit-rotation', 'tiling-zero-gap-on-lattice', 'opd'],
          fuc=['prysm.segmented.CompositeKeystoneAperture', 'prysm.segmented._composite_keystone_aperture', 'prysm.segmented._local_window',
               'prysm.segmented.CompositeKeystoneAperture.prepare_opd_bases', 'prysm.segmented.CompositeKeystoneAperture.compose_opd',
               'prysm.geometry.circle', 'prysm.geometry.spider'])
 def bounded_keystone_aperture(which):
     """BOUNDED: seeded grids 24..90 samples per axis (square and not, odd and even), 1..3 rings of individually drawn radial
     width, radial gaps 0.2..2 samples, segment counts per ring: multiples of four ('tiling', 'opd'), any count 3..12
-    ('tiling-any-segment-count'), explicit per-ring rotations 0..360 degrees ('tiling-explicit-rotation'); Zernike (r, t) bases."""
+    ('tiling-any-segment-count'), explicit per-ring rotations 0..360 degrees ('tiling-explicit-rotation'), abutting rings (no radial
+    gap) with radii exactly on samples ('tiling-zero-gap-on-lattice'); Zernike (r, t) bases."""
     import numpy as np
     import math
     rng = np.random.default_rng(Int('seed', 0, 10 ** 6))
@@ -533,6 +534,15 @@ def bounded_keystone_aperture(which):
     ccd = diam * float(rng.uniform(0.1, 0.3))
     widths = [(diam / 2 - ccd / 2) / rings * float(rng.uniform(0.5, 1.0)) for _ in range(rings)]
     gap = float(rng.uniform(0.2, 2)) * dxs
+    if which == 'tiling-zero-gap-on-lattice':
+        # abutting rings whose radii fall exactly on samples: dx a power of two, radii multiples of dx, no radial gap
+        n_ = int(rng.integers(24, 91))
+        dxs = 1.0 / 16
+        x, y = co.make_xy_grid(n_, dx=dxs)
+        diam = n_ * dxs
+        ccd = 2 * dxs * int(rng.integers(2, max(3, n_ // 8)))
+        widths = [dxs * int(rng.integers(2, max(3, n_ // (4 * rings)))) for _ in range(rings)]
+        gap = 0.0
     if which == 'tiling-any-segment-count':
         spr = [int(rng.integers(3, 13)) for _ in range(rings)]
     else:
@@ -555,7 +565,8 @@ def bounded_keystone_aperture(which):
         check('segment-wholly-off-the-grid-not-drawn', True)     # prepare_opd_bases reads the first and last sample of every window
         return
     if which != 'opd':
-        tag = {'tiling': '', 'tiling-any-segment-count': '(any-segment-count)', 'tiling-explicit-rotation': '(explicit-rotation)'}[which]
+        tag = {'tiling': '', 'tiling-any-segment-count': '(any-segment-count)', 'tiling-explicit-rotation': '(explicit-rotation)',
+               'tiling-zero-gap-on-lattice': '(zero-gap-on-lattice)'}[which]
         check('documented-number-of-segments', len(ka.segment_ids) == sum(spr) == len(fulls) and list(ka.segment_ids) == list(range(sum(spr))))
         check('centre-segment-is-its-circle', bool((cfull == (r <= ccd / 2)).all()))
         cnt = cfull.astype(int)
